@@ -41,6 +41,7 @@ package main
 // file) each consume their own channel; all channels are handed to the fan-out stage,
 // closed exactly once after the input is exhausted, and the writers are waited for.
 //@ func HandleMessages
+//@ spawns[C10,C11] writeRTCMMessages, writeReadableMessages, Done
 //@ requires config != nil
 //@ requires[C13,C09] config.TimeoutOnEOFMilliSeconds <= 1<<40 && config.WaitTimeOnEOFMilliseconds <= 1<<40
 //@ ensures[C10,C11] closed(messageChan)
